@@ -153,6 +153,8 @@ var c13Nodes = []nodeShape{{"1000m", "4Gi"}, {"3900m", "16G"}, {"", ""}, {"7.5",
 
 func (n nodeShape) build(name string) *v1.Node {
 	nd := &v1.Node{ObjectMeta: metav1.ObjectMeta{Name: name}}
+	// every node reports its raw capacity (larger than anything allocatable); only allocatable counts
+	nd.Status.Capacity = v1.ResourceList{v1.ResourceCPU: resource.MustParse("64"), v1.ResourceMemory: resource.MustParse("256Gi")}
 	if n.CPU != "" {
 		nd.Status.Allocatable = v1.ResourceList{v1.ResourceCPU: resource.MustParse(n.CPU), v1.ResourceMemory: resource.MustParse(n.Mem)}
 	}
@@ -514,19 +516,20 @@ func c13DryGroup(t *testing.T, c *h.Collector) {
 		s := &h.Scenario{Name: "c13.dry-group", Groups: []h.GroupSpec{g}, DryGlobal: global, Slots: 2, Quantum: Q,
 			Init: func(hh *h.Hist) {
 				a := InitASGs(hh)[0]
-				for k := 0; k < 4; k++ {
-					hh.W.AddNode(a, sim.NodeOpt{Age: time.Duration(10+k) * Q})
+				// creation order differs from name order: ...-004 is the oldest, then ...-002
+				for _, age := range []int{10, 12, 11, 13} {
+					hh.W.AddNode(a, sim.NodeOpt{Age: time.Duration(age) * Q})
 				}
-				hh.W.AddPod(podOn(g, hh.W.Nodes[3].Name, 1500)) // 37.5 %: one node is dry-tainted in scan 1
+				hh.W.AddPod(podOn(g, hh.W.Nodes[0].Name, 300)) // 7.5 %: the two oldest nodes are dry-tainted in scan 1
 			}}
 		hh := RunCase(t, s)
 		c.R.Evaluations++
 		c.R.Scans += hh.Scans
 		gotCap := gaugeValue(metrics.NodeGroupCPUCapacity.WithLabelValues("g1"))
 		gotPct := gaugeValue(metrics.NodeGroupsCPUPercent.WithLabelValues("g1"))
-		if gotCap != 3000 || !closeTo(gotPct, 1500, 3000) {
+		if gotCap != 2000 || !closeTo(gotPct, 300, 2000) {
 			c.Report(h.Found{Violation: h.Violation{Prop: "C13", Sig: "C13/e2e-capacity-dry-group",
-				Msg: fmt.Sprintf("dry mode (global flag %v): after one of four 1000m nodes was dry-tainted the group reports %v m of capacity and %v %% (untainted capacity is 3000 m, 50 %%)", global, gotCap, gotPct)},
+				Msg: fmt.Sprintf("dry mode (global flag %v): after two of four 1000m nodes were dry-tainted the group reports %v m of capacity and %v %% (untainted capacity is 2000 m, 15 %%)", global, gotCap, gotPct)},
 				Scenario: "c13.dry-group", Case: map[string]any{"global_flag": global}, Trace: append([]string(nil), hh.Trace...)})
 		}
 		c.Nontrivial(fmt.Sprint("dry-group/", global))
